@@ -29,10 +29,10 @@ WHAT = {
 }
 
 
-def enumerate_scenarios(res, tag, trees, p1two, npatches, cfgs, work):
+def enumerate_scenarios(res, tag, trees, p1two, npatches, cfgs, work, with_reverse='FALSE'):
     out = os.path.join(work, tag + '.tlc')
     st = tlc('MC_Out', constants={'Paths': PATHS_C, 'Trees': '<- ' + trees, 'P1Two': p1two, 'NPatches': npatches,
-                                  'Cfgs': '<- ' + cfgs, 'EmitCases': 'TRUE'}, cfg_body=OUT_CFG, out=out, tag=tag)
+                                  'Cfgs': '<- ' + cfgs, 'EmitCases': 'TRUE', 'WithReverse': with_reverse}, cfg_body=OUT_CFG, out=out, tag=tag)
     res.add_tlc(st, tag)
     return out, st
 
@@ -42,7 +42,7 @@ def run_one(job):
     sc, cfg, out, threads, extra = job
     w = ws.mkws('sc')
     try:
-        scen.materialise(w, sc['tree0'], sc['series'])
+        scen.materialise(w, sc['tree0'], sc['series'], [('-R' if pt.get('rev') else '') for pt in sc['series']])
         rc, so, se = ws.push(w, scen.flags(cfg, threads, extra or ('-q',)))
         snap = ws.snapshot(w)
         probs = scen.compare(snap, sc, out, cfg, rc, se)
@@ -73,7 +73,7 @@ def check_scenarios(prop, tier):
         nsample = 6000 if tier == 'quick' else 60000
         total_runs = 0
         for tag, trees, p1two, npatches in plans:
-            out, st = enumerate_scenarios(res, tag, trees, p1two, npatches, CFGSET[prop], work)
+            out, st = enumerate_scenarios(res, tag, trees, p1two, npatches, CFGSET[prop], work, 'TRUE' if npatches == 2 else 'FALSE')
             lines = []
             with open(out, errors='replace') as f:
                 for line in f:
@@ -116,7 +116,7 @@ def check_scenarios(prop, tier):
                                        'observed': {'exit': rc, 'stderr': se, 'problems': probs}})
             sc0 = jobs[len(jobs) // 2]
             res.sample({'tree0': {p: (f['cells'] if f['ex'] else None) for p, f in sc0[0]['tree0'].items()},
-                        'series': [[(fp['kind'], fp['old'], fp['new'], 'ren' if fp['ren'] else '', fp['hunks'] or fp['to'] or fp['from']) for fp in pt['fps']] for pt in sc0[0]['series']],
+                        'series': [{'reverse': pt.get('rev', False), 'fps': [(fp['kind'], fp['old'], fp['new'], 'ren' if fp['ren'] else '', fp['hunks'] or fp['to'] or fp['from']) for fp in pt['fps']]} for pt in sc0[0]['series']],
                         'cfg': sc0[1], 'reference': {k: sc0[2][k] for k in ('k', 'exit', 'rejects', 'backups')}})
         res.cov['traces_validated_against_impl'] += total_runs
         res.cov['evaluations'] += total_runs
@@ -134,5 +134,181 @@ def check_scenarios(prop, tier):
     return res
 
 
+
+
+# ---------------------------------------------------------------------------------------------
+# C10: --dry-run writes nothing and predicts the real outcome
+def failing_name(stderr):
+    m = re.search(r'Patch (\S+) FAILED', stderr)
+    return m.group(1) if m else None
+
+
+def dry_one(job):
+    sc, cfg, out, threads, traced = job
+    w = ws.mkws('dry')
+    try:
+        scen.materialise(w, sc['tree0'], sc['series'])
+        os.makedirs(os.path.join(w, 'emptydir'))
+        before = ws.snapshot(w, skip=(), meta=True)
+        probs = []
+        if traced:
+            rc, se, events = ws.strace_push(w, scen.flags(cfg, threads, ('-q',)))
+            for ev in events:
+                if ev['write'] and (ev['path'] is None or ws.under(w, ev['path']) is not None or not os.path.isabs(ev['path'] or '/')):
+                    probs.append(('dry-syscall', 'write-class system call during --dry-run: %s(%s) = %s' % (ev['call'], ev['args'][:120], ev['ret'])))
+                    break
+        else:
+            rc, so, se = ws.push(w, scen.flags(cfg, threads, ('-q',)))
+        after = ws.snapshot(w, skip=(), meta=True)
+        if ws.crashed(rc):
+            return [('crash', 'dry run exits with %s: %s' % (rc, se[-200:]))]
+        if after != before:
+            ch = sorted(p for p in set(after) | set(before) if after.get(p) != before.get(p))
+            probs.append(('dry-wrote', '--dry-run changed %s' % ch))
+        if rc != out['exit']:
+            probs.append(('dry-exit', 'dry run exits with %d, reference %d' % (rc, out['exit'])))
+        want = scen.patch_name(out['failingPatch']) if out['failingPatch'] else None
+        if failing_name(se) != want:
+            probs.append(('dry-failing-patch', 'dry run reports failing patch %s, reference %s' % (failing_name(se), want)))
+        # the real run on the same input
+        real_cfg = dict(cfg, dry=False)
+        rc2, so2, se2 = ws.push(w, scen.flags(real_cfg, threads, ('-q',)))
+        if rc2 != rc or failing_name(se2) != failing_name(se):
+            probs.append(('dry-predicts', 'dry run says exit %d / failing %s, the real run exit %d / failing %s' % (rc, failing_name(se), rc2, failing_name(se2))))
+        return probs
+    finally:
+        ws.rmws(w)
+
+
+def check_c10(prop, tier):
+    res = Result(prop, tier)
+    work = scratch(prop)
+    rnd = random.Random(seed())
+    try:
+        out, st = enumerate_scenarios(res, 'dry-scenarios', 'TreesSmall' if tier == 'quick' else 'TreesAll', 'TRUE', 2, 'Cfgs_dry', work)
+        lines = [l for l in open(out, errors='replace') if l.startswith('"{')]
+        os.unlink(out)
+        pick = rnd.sample(lines, min(len(lines), 2500 if tier == 'quick' else 30000))
+        jobs = []
+        for li, line in enumerate(pick):
+            sc = json.loads(json.loads(line))
+            if sc['outs'][0]['out']['adversarial']:
+                continue
+            dry = [o for o in sc['outs'] if o['cfg']['dry']]
+            o = dry[li % len(dry)]
+            jobs.append((sc, o['cfg'], o['out'], 1 + li % 3, li % 12 == 0))
+        with Pool(12) as pool:
+            outs = pool.map(dry_one, jobs, chunksize=8)
+        for (sc, cfg, o, threads, traced), probs in zip(jobs, outs):
+            for cat, msg in probs:
+                res.violation(cat, msg + ' (threads %d, backup %s)' % (threads, cfg['backup']),
+                              {'tree0': sc['tree0'], 'series': sc['series'], 'cfg': cfg, 'threads': threads, 'reference': o})
+        res.cov['parts']['dry-scenarios'].update({'runs': len(jobs), 'traced_with_strace': sum(1 for j in jobs if j[4]),
+                                                  'failing_series': sum(1 for j in jobs if j[2]['exit'] == 1)})
+        res.cov['traces_validated_against_impl'] += len(jobs)
+        res.cov['evaluations'] += len(jobs)
+        res.cov['distinct_nontrivial'] += len(jobs)
+        res.sample({'tree0': jobs[0][0]['tree0'], 'series': jobs[0][0]['series'], 'cfg': jobs[0][1], 'reference_exit': jobs[0][2]['exit']})
+        ws.cleanup_all()
+    finally:
+        shutil.rmtree(work, ignore_errors=True)
+    res.cov['rule'] = ('TLC-enumerated scenarios (as C05) with dry-run configurations; each run with 1-3 threads: recursive snapshot incl. inode, mtime and directory entries before = after, exit status and reported '
+                       'failing patch equal the reference and the real run on the same workspace; every 12th run is traced with strace and must show no write-class system call')
+    return res
+
+
+# ---------------------------------------------------------------------------------------------
+# C14: presentation / loader options never change the result
+VARIANTS = [('-q',), (), ('--mmap', '-q'), ('-v',), ('-v', '-v'), ('--color', 'always'), ('--stats', '-q'), ('-A', 'multiapply', '-q'),
+            ('--mmap', '-v', '-v', '--stats', '--color', 'always', '-A', 'multiapply')]
+
+
+def opt_one(job):
+    sc, cfg, out, threads, extra_files = job
+    snaps = []
+    for v in VARIANTS:
+        w = ws.mkws('opt')
+        try:
+            scen.materialise(w, sc['tree0'], sc['series'])
+            for p, d in extra_files.items():
+                ws.write(w, p, d)
+            rc, so, se = ws.push(w, scen.flags(cfg, threads, v))
+            snaps.append((v, rc, ws.snapshot(w), se[-300:]))
+        finally:
+            ws.rmws(w)
+    probs = []
+    base = snaps[0]
+    for v, rc, snap, se in snaps:
+        if ws.crashed(rc):
+            probs.append(('option-crash', 'with %s the push exits with %s: %s' % (' '.join(v) or '(no option)', rc, se)))
+        elif rc != base[1] or snap != base[2]:
+            diff = sorted(p for p in set(snap) | set(base[2]) if snap.get(p) != base[2].get(p))
+            probs.append(('option-changes-result', 'with %s: exit %d (baseline -q: %d), differing paths %s' % (' '.join(v) or '(no option)', rc, base[1], diff)))
+    # and the baseline is the reference result
+    if not extra_files:
+        for cat, msg in scen.compare(base[2], sc, out, cfg, base[1], base[3]):
+            probs.append(('baseline-' + cat, msg))
+    return probs
+
+
+def check_c14(prop, tier):
+    res = Result(prop, tier)
+    work = scratch(prop)
+    rnd = random.Random(seed())
+    try:
+        out, st = enumerate_scenarios(res, 'option-scenarios', 'TreesSmall' if tier == 'quick' else 'TreesAll', 'TRUE', 2, 'Cfgs_push', work)
+        lines = [l for l in open(out, errors='replace') if l.startswith('"{')]
+        os.unlink(out)
+        # stratify as in C05 so that successful and failing pushes are both there
+        strata = {}
+        for line in lines:
+            m = re.search(r'\\"k\\":(\d+).{0,4000}?\\"exit\\":(\d)', line)
+            strata.setdefault((min(int(m.group(1)), 2), m.group(2)) if m else '?', []).append(line)
+        n = 500 if tier == 'quick' else 6000
+        pick = []
+        for k, ls in sorted(strata.items()):
+            pick += rnd.sample(ls, min(len(ls), n // len(strata)))
+        jobs = []
+        for li, line in enumerate(pick):
+            sc = json.loads(json.loads(line))
+            if sc['outs'][0]['out']['adversarial']:
+                continue
+            o = sc['outs'][li % len(sc['outs'])]
+            jobs.append((sc, o['cfg'], o['out'], 1 + li % 2, {}))
+        # zero-length source file, zero-length patch file, empty series, nothing to do
+        empty_tree = {p: {'ex': False, 'cells': [], 'mode': 'none'} for p in scen.PATHS}
+        special = [
+            ({'tree0': dict(empty_tree, b={'ex': True, 'cells': [], 'mode': '644'}), 'series': [{'fps': [{'kind': 'C', 'old': 'b', 'new': 'b', 'ren': False, 'hunks': [], 'to': [0], 'from': [], 'nmode': 'none'}]}]}, {}),
+            ({'tree0': empty_tree, 'series': []}, {}),
+            ({'tree0': dict(empty_tree, a={'ex': True, 'cells': [0], 'mode': '644'}), 'series': []}, {'patches/empty.patch': b'', 'series': b'empty.patch\n'}),
+            ({'tree0': dict(empty_tree, a={'ex': True, 'cells': [0], 'mode': '644'}), 'series': []}, {'patches/empty.patch': b'', 'series': b'empty.patch\n', '.pc/applied-patches': b'empty.patch\n'}),
+        ]
+        cfg0 = {'backup': 'onfail', 'win': 100, 'dry': False}
+        for sc, extra in special:
+            for t in (1, 2):
+                jobs.append((sc, cfg0, None, t, extra or {'series': b''}))
+        with Pool(12) as pool:
+            outs = pool.map(opt_one, jobs, chunksize=4)
+        for (sc, cfg, o, threads, extra), probs in zip(jobs, outs):
+            for cat, msg in probs:
+                res.violation(cat.split(':')[0], 'presentation/loader options change the result: ' + msg + ' (threads %d)' % threads,
+                              {'tree0': sc['tree0'], 'series': sc['series'], 'cfg': cfg, 'threads': threads, 'extra_files': {k: v.decode() for k, v in extra.items()}})
+        res.cov['parts']['option-scenarios'].update({'scenarios': len(jobs), 'runs': len(jobs) * len(VARIANTS), 'variants': [' '.join(v) for v in VARIANTS]})
+        res.cov['traces_validated_against_impl'] += len(jobs) * len(VARIANTS)
+        res.cov['evaluations'] += len(jobs) * len(VARIANTS)
+        res.cov['distinct_nontrivial'] += len(jobs)
+        res.sample({'tree0': jobs[0][0]['tree0'], 'series': jobs[0][0]['series'], 'variants': [' '.join(v) for v in VARIANTS]})
+        ws.cleanup_all()
+    finally:
+        shutil.rmtree(work, ignore_errors=True)
+    res.cov['rule'] = ('stratified sample of TLC-enumerated scenarios plus special workspaces (zero-length source, zero-length patch file, empty series, nothing to do), each pushed with 9 option variants '
+                       '(-q baseline, none, --mmap, -v, -vv, --color always, --stats, -A multiapply, all together); snapshots and exit status must be pairwise identical and the baseline equal to the reference Outcome')
+    return res
+
+
 def check(prop, tier):
+    if prop == 'C10':
+        return check_c10(prop, tier)
+    if prop == 'C14':
+        return check_c14(prop, tier)
     return check_scenarios(prop, tier)
